@@ -1,2 +1,167 @@
+(* C17 — clock-domain-crossing primitives meet their latency and pulse contracts.
+   Only statements here; the model is Model/Cdc.v, proofs live in Proofs/CdcP.v.
+   Time is a list of events (Ein v: input driven to v; Eo / Ei: active edge of the output- / input-domain
+   clock; Eb: both at the same instant; Enop: anything else), quantified universally: every interleaving
+   of the two clocks and of the input changes.  All theorems hold for every stage count >= 1
+   (the constructors only accept >= 2). *)
 From Coq Require Import ZArith List Bool.
 From V.Model Require Import Bits Cdc.
+From V.Proofs Require Import CdcP.
+Import ListNotations.
+Open Scope Z_scope.
+
+(* --- FFSynchronizer: latency is exactly `stages` output edges ---
+   sampled sh i0 evs = the input values present at output edges 1, 2, ... n.  At any moment, with n
+   output edges so far, the output is the input as it was just before output edge n - stages + 1
+   (0-based index n - stages), and the initial value while n < stages. *)
+Theorem C17_ff_sync_latency sh stages init i0 evs : (1 <= stages)%nat ->
+  let n := count_oedges evs in
+  ff_out (ff_run sh stages init i0 evs) =
+  if (n <? stages)%nat then norm sh init else nth (n - stages) (sampled sh (norm sh i0) evs) 0.
+Proof. exact (ff_sync_latency sh stages init i0 evs). Qed.
+Print Assumptions C17_ff_sync_latency.
+
+(* a change of the input (Ein b, then the input is held) is invisible during the next stages - 1 output
+   edges -- the output is what it would have been without the change -- and visible from the stages-th on *)
+Theorem C17_ff_change_visible sh stages init i0 evs b tail : (1 <= stages)%nat ->
+  input_held tail = true ->
+  ff_out (ff_run sh stages init i0 (evs ++ Ein b :: tail)) =
+  if (count_oedges tail <? stages)%nat then ff_out (ff_run sh stages init i0 (evs ++ tail))
+  else norm sh b.
+Proof. exact (ff_change_visible sh stages init i0 evs b tail). Qed.
+Print Assumptions C17_ff_change_visible.
+
+Example C17_ff_example :
+  let sh := Sh 3 false in
+  let tail := [Eo; Enop; Eb; Ei; Eo] in
+  input_held tail = true /\
+  map (fun k => ff_out (ff_run sh 3 5 0 ([Ein 2; Eo] ++ Ein 7 :: firstn k tail))) [0; 1; 2; 3; 4; 5]%nat
+    = [5; 5; 5; 2; 2; 7] /\
+  ff_out (ff_run (Sh 3 true) 2 0 0 [Ein 13; Eo; Eo]) = -3.
+Proof. vm_compute. repeat split. Qed.
+
+(* --- AsyncFFSynchronizer / ResetSynchronizer ---
+   af_rst pos i = the input is asserted (i for async_edge="pos", ~i for "neg"). *)
+(* asserted input => output 1 at once: no clock edge is needed, and it stays 1 while asserted *)
+Theorem C17_async_ff_assert_immediate pos stages i0 evs : (1 <= stages)%nat ->
+  af_rst pos (af_input_after (Z.odd i0) evs) = true ->
+  af_out (af_run pos stages i0 evs) = true.
+Proof. exact (af_assert_immediate pos stages i0 evs). Qed.
+Print Assumptions C17_async_ff_assert_immediate.
+
+(* released input (Ein v after an asserted phase, not asserted again during tail) => the output is 1
+   until exactly `stages` output edges have passed, 0 from then on *)
+Theorem C17_async_ff_release_after_stages pos stages i0 evs v tail : (1 <= stages)%nat ->
+  af_rst pos (af_input_after (Z.odd i0) evs) = true ->
+  af_rst pos (Z.odd v) = false ->
+  af_stays_released pos tail = true ->
+  af_out (af_run pos stages i0 (evs ++ Ein v :: tail)) = (count_oedges tail <? stages)%nat.
+Proof. exact (af_release_after_stages pos stages i0 evs v tail). Qed.
+Print Assumptions C17_async_ff_release_after_stages.
+
+(* power-on with the input released behaves like a release at time 0 *)
+Theorem C17_async_ff_power_on pos stages i0 evs : (1 <= stages)%nat ->
+  af_rst pos (Z.odd i0) = false -> af_stays_released pos evs = true ->
+  af_out (af_run pos stages i0 evs) = (count_oedges evs <? stages)%nat.
+Proof. exact (af_power_on pos stages i0 evs). Qed.
+Print Assumptions C17_async_ff_power_on.
+
+(* complete characterisation: rel_edges = output edges since the input was last asserted *)
+Theorem C17_async_ff_out_spec pos stages i0 evs : (1 <= stages)%nat ->
+  af_out (af_run pos stages i0 evs) = (rel_edges pos (Z.odd i0) 0 evs <? stages)%nat.
+Proof. exact (af_out_spec pos stages i0 evs). Qed.
+Print Assumptions C17_async_ff_out_spec.
+
+(* ResetSynchronizer = AsyncFFSynchronizer with async_edge = "pos" driving the reset of the domain *)
+Theorem C17_reset_sync_contract stages i0 evs v tail : (1 <= stages)%nat ->
+  (af_input_after (Z.odd i0) evs = true -> af_out (rs_run stages i0 evs) = true) /\
+  (af_input_after (Z.odd i0) evs = true -> Z.odd v = false -> af_stays_released true tail = true ->
+   af_out (rs_run stages i0 (evs ++ Ein v :: tail)) = (count_oedges tail <? stages)%nat).
+Proof.
+  intros Hs. split.
+  - exact (af_assert_immediate true stages i0 evs Hs).
+  - exact (af_release_after_stages true stages i0 evs v tail Hs).
+Qed.
+Print Assumptions C17_reset_sync_contract.
+
+Example C17_async_ff_example :
+  let evs := [Eo; Eo; Eo; Ein 1] in
+  let tail := [Eo; Enop; Eo; Ein 0; Eo; Eo] in
+  af_rst true (af_input_after (Z.odd 0) evs) = true /\ af_rst true (Z.odd 0) = false /\
+  af_stays_released true tail = true /\
+  af_out (af_run true 3 0 [Eo; Eo; Eo]) = false /\ af_out (af_run true 3 0 evs) = true /\
+  map (fun k => af_out (af_run true 3 0 (evs ++ Ein 0 :: firstn k tail))) [0; 1; 2; 3; 4; 5; 6]%nat
+    = [true; true; true; true; true; false; false] /\
+  af_rst false (af_input_after (Z.odd 1) [Ein 0]) = true /\
+  af_out (af_run false 2 1 [Eo; Eo; Ein 0]) = true.
+Proof. vm_compute. repeat split. Qed.
+
+(* --- PulseSynchronizer ---
+   input pulse = input-domain edge with i = 1 (in_pulses); out_cycles = output-domain cycles during
+   which o = 1; separated = between two consecutive input pulses there is an output-domain edge
+   (at Eb the output registers sample the values from before the edge, so Eb separates its own pulse
+   from earlier pulses only); inflight = pulses inside the synchroniser that have not reached o yet. *)
+Theorem C17_pulse_conservation stages i0 evs : (1 <= stages)%nat ->
+  separated (Z.odd i0) false evs = true ->
+  (out_cycles (ps_start stages i0) evs + inflight (ps_run stages i0 evs))%nat = in_pulses (Z.odd i0) evs.
+Proof. exact (pulse_conservation stages i0 evs). Qed.
+Print Assumptions C17_pulse_conservation.
+
+(* nothing stays inside: `stages` output edges after the last input pulse nothing is in flight ... *)
+Theorem C17_pulse_flushed stages i0 evs tail : (1 <= stages)%nat ->
+  in_pulses (af_input_after (Z.odd i0) evs) tail = O ->
+  (stages <= count_oedges tail)%nat ->
+  inflight (ps_run stages i0 (evs ++ tail)) = O.
+Proof. exact (pulse_flushed stages i0 evs tail). Qed.
+Print Assumptions C17_pulse_flushed.
+
+(* ... hence the number of output cycles with o = 1 EQUALS the number of input pulses: one output cycle
+   per pulse, none lost, none doubled, none longer than one cycle, for every interleaving *)
+Theorem C17_pulse_conservation_flushed stages i0 evs tail : (1 <= stages)%nat ->
+  separated (Z.odd i0) false (evs ++ tail) = true ->
+  in_pulses (af_input_after (Z.odd i0) evs) tail = O ->
+  (stages <= count_oedges tail)%nat ->
+  out_cycles (ps_start stages i0) (evs ++ tail) = in_pulses (Z.odd i0) evs.
+Proof. exact (pulse_conservation_flushed stages i0 evs tail). Qed.
+Print Assumptions C17_pulse_conservation_flushed.
+
+(* per-cycle form.  pulse_slots = number of input pulses in each interval between output edges
+   (slot_at sl j = pulses in the interval that ends at output edge j, 1-based; 0 for j = 0).
+   After m output edges, o is the parity of the pulses that fell into the interval ending at output
+   edge m + 1 - stages: a pulse shows at o exactly from the stages-th output edge after it, for
+   exactly one output cycle -- for every interleaving, separated or not. *)
+Theorem C17_pulse_latency stages i0 evs : (1 <= stages)%nat ->
+  ps_out (ps_run stages i0 evs) =
+  Nat.odd (slot_at (pulse_slots (Z.odd i0) 0 evs) (count_oedges evs + 1 - stages)).
+Proof. exact (pulse_latency stages i0 evs). Qed.
+Print Assumptions C17_pulse_latency.
+
+(* with separated pulses every interval holds at most one pulse: o = 1 iff exactly one pulse *)
+Theorem C17_pulse_single_cycle stages i0 evs : (1 <= stages)%nat ->
+  separated (Z.odd i0) false evs = true ->
+  ps_out (ps_run stages i0 evs) =
+  (slot_at (pulse_slots (Z.odd i0) 0 evs) (count_oedges evs + 1 - stages) =? 1)%nat.
+Proof. exact (pulse_single_cycle stages i0 evs). Qed.
+Print Assumptions C17_pulse_single_cycle.
+
+Example C17_pulse_latency_example :
+  let evs := [Ein 1; Ei; Ein 0; Eo; Ei; Eo; Eb; Eo; Eo] in
+  separated false false evs = true /\ pulse_slots false 0 evs = [1; 0; 0; 0; 0]%nat /\
+  map (fun k => ps_out (ps_run 2 0 (firstn k evs))) [4; 6; 7; 8; 9]%nat = [false; true; false; false; false].
+Proof. vm_compute. repeat split. Qed.
+
+(* the separation hypothesis is necessary: two pulses without an output edge in between cancel *)
+Theorem C17_pulse_unseparated_lost :
+  exists evs, separated false false evs = false /\ in_pulses false evs = 2%nat /\
+              out_cycles (ps_start 2 0) evs = O /\ inflight (ps_run 2 0 evs) = O.
+Proof. exists [Ein 1; Ei; Ei; Eo; Eo; Eo; Eo]. vm_compute. repeat split. Qed.
+Print Assumptions C17_pulse_unseparated_lost.
+
+Example C17_pulse_example :
+  let evs := [Ein 1; Ei; Ein 0; Ei; Eo; Ein 1; Eb; Eb; Ein 0; Eo; Ei] in
+  let tail := [Eo; Ei; Eo; Eb] in
+  separated false false (evs ++ tail) = true /\
+  in_pulses (af_input_after false evs) tail = O /\ (3 <= count_oedges tail)%nat /\
+  in_pulses false evs = 3%nat /\ out_cycles (ps_start 3 0) evs = 1%nat /\ inflight (ps_run 3 0 evs) = 2%nat /\
+  out_cycles (ps_start 3 0) (evs ++ tail) = 3%nat.
+Proof. vm_compute. repeat split; auto. Qed.
